@@ -472,6 +472,9 @@ func (self *Compiler) compileExpr(node ast.AnalyzedExpression) {
 		self.insert(newOneStringInstruction(Opcode_Jump, afterCatchLabel), node.Range)
 
 		// exception case
+		// The catch identifier lives in a scope of its own, it must not shadow variables of the enclosing scope after the `try`.
+		self.pushScope()
+		defer self.popScope()
 		mangledExceptionName := self.mangleVar(node.CatchIdent.Ident())
 		self.insert(newOneStringInstruction(Opcode_Label, exceptionLabel), node.Range)
 		self.pushScope()
